@@ -12,6 +12,8 @@ set_option linter.unusedVariables false
 namespace SoyVerif.Lemmas.LexPrint
 open SoyVerif SoyVerif.Model SoyVerif.Model.Lex SoyVerif.Model.PrintTokens
 
+variable {tg : Int}
+
 /-- the inside of a string literal quoted with `q`: a backslash always has a successor (which is
     skipped), and no unescaped `q` occurs -/
 def bodyOk (q : UInt8) : Bytes → Bool
@@ -92,10 +94,10 @@ theorem hi_prefix {q : UInt8} (hq : q.toNat < 128) {body rest c s' : Bytes} (h :
 /-- `stringLexer(q)` from inside a literal: it runs to the closing quote and emits the token -/
 theorem lexString_body {inp : Array UInt8} {st pe : Nat} {qb : UInt8} {rest : Bytes} {le it : Item} {its : Array Item}
     (hq : qb = 39 ∨ qb = 34)
-    (he : ∀ w, (L inp pe st w le its).emit .tString = some (L inp pe pe w it (its.push it))) :
+    (he : ∀ w, (L tg inp pe st w le its).emit .tString = some (L tg inp pe pe w it (its.push it))) :
     ∀ (n : Nat) (body : Bytes) (p : Nat) (w : Int), body.length ≤ n → InpAt inp p (body ++ qb :: rest) →
       bodyOk qb body = true → p + body.length + 1 = pe →
-      lexString (qb.toNat : Int) (L inp p st w le its) = some (some .insideTag, L inp pe pe 1 it (its.push it)) := by
+      lexString (qb.toNat : Int) (L tg inp p st w le its) = some (some .insideTag, L tg inp pe pe 1 it (its.push it)) := by
   have hq128 : qb.toNat < 128 := by rcases hq with rfl | rfl <;> decide
   have hq92 : qb.toNat ≠ 92 := by rcases hq with rfl | rfl <;> decide
   intro n
@@ -104,7 +106,7 @@ theorem lexString_body {inp : Array UInt8} {st pe : Nat} {qb : UInt8} {rest : By
     intro body p w hl h hb hpe
     have : body = [] := List.eq_nil_of_length_eq_zero (by omega)
     subst this
-    have hn := next_L (s := rest) (by simpa using h) hq128 st w le its
+    have hn := next_L (tg := tg) (s := rest) (by simpa using h) hq128 st w le its
     rw [lexString_some hn (by simp only [eof]; omega), if_neg (by omega), if_pos rfl]
     have : p + 1 = pe := by simpa using hpe
     rw [this, he 1]
@@ -112,13 +114,13 @@ theorem lexString_body {inp : Array UInt8} {st pe : Nat} {qb : UInt8} {rest : By
     intro body p w hl h hb hpe
     cases body with
     | nil =>
-      have hn := next_L (s := rest) (by simpa using h) hq128 st w le its
+      have hn := next_L (tg := tg) (s := rest) (by simpa using h) hq128 st w le its
       rw [lexString_some hn (by simp only [eof]; omega), if_neg (by omega), if_pos rfl]
       have : p + 1 = pe := by simpa using hpe
       rw [this, he 1]
     | cons b s =>
       have h0 : InpAt inp p (b :: (s ++ qb :: rest)) := by simpa using h
-      obtain ⟨r, c, s', hcs, hc, hlo, hhi, hn⟩ := next_any h0 st w le its
+      obtain ⟨r, c, s', hcs, hc, hlo, hhi, hn⟩ := next_any (tg := tg) h0 st w le its
       obtain ⟨body', hs, hs'⟩ := hi_prefix hq128 hcs hc
       have htail : InpAt inp (p + (c.length + 1)) s' := by
         have h0' : InpAt inp p ((b :: c) ++ s') := by rw [List.cons_append, ← hcs]; exact h0
@@ -143,7 +145,7 @@ theorem lexString_body {inp : Array UInt8} {st pe : Nat} {qb : UInt8} {rest : By
           rw [bodyOk_esc] at hb
           have h1 : InpAt inp (p + 1) (c2 :: (s2 ++ qb :: rest)) := by
             have := inpAt_tail h0; simpa using this
-          obtain ⟨r2, c', s'', hcs2, hc2, _, _, hn2⟩ := next_any h1 st ((([] : Bytes).length + 1 : Nat) : Int) le its
+          obtain ⟨r2, c', s'', hcs2, hc2, _, _, hn2⟩ := next_any (tg := tg) h1 st ((([] : Bytes).length + 1 : Nat) : Int) le its
           obtain ⟨body'', hs2, hs2'⟩ := hi_prefix hq128 hcs2 hc2
           have htail2 : InpAt inp (p + 1 + (c'.length + 1)) (body'' ++ qb :: rest) := by
             have h1' : InpAt inp (p + 1) ((c2 :: c') ++ s'') := by rw [List.cons_append, ← hcs2]; exact h1
@@ -196,17 +198,17 @@ theorem strOk_parts {val : Bytes} (h : strOk val = true) :
 
 /-- a string token -/
 theorem step_string {inp p} {val rest : Bytes} (h : InpAt inp p (val ++ rest)) (hs : strOk val = true) (le its) :
-    Step2 inp p le its ⟨.tString, val⟩ := by
+    Step2 tg inp p le its ⟨.tString, val⟩ := by
   obtain ⟨q, body, rfl, hq, hb⟩ := strOk_parts hs
   intro w
   have h0 : InpAt inp p (q :: (body ++ q :: rest)) := by simpa using h
   have hq128 : q < 128 := by rcases hq with rfl | rfl <;> decide
-  have he : ∀ w, (L inp (p + (q :: (body ++ [q])).length) p w le its).emit .tString =
-      some (L inp (p + (q :: (body ++ [q])).length) (p + (q :: (body ++ [q])).length) w
+  have he : ∀ w, (L tg inp (p + (q :: (body ++ [q])).length) p w le its).emit .tString =
+      some (L tg inp (p + (q :: (body ++ [q])).length) (p + (q :: (body ++ [q])).length) w
         (itemOf ⟨.tString, q :: (body ++ [q])⟩ (p + (q :: (body ++ [q])).length))
         (its.push (itemOf ⟨.tString, q :: (body ++ [q])⟩ (p + (q :: (body ++ [q])).length)))) :=
     fun w => emit_L h rfl w le its .tString
-  refine ⟨1, .str (q.toNat : Int), L inp (p + 1) p 1 le its, ?_, ?_⟩
+  refine ⟨1, .str (q.toNat : Int), L tg inp (p + 1) p 1 le its, ?_, ?_⟩
   · simp only [step, lexInsideTag, next_L h0 hq128, Option.bind_eq_bind, Option.bind_some]
     rcases hq with rfl | rfl <;>
       simp [isSpaceEOL, isSpace, isEndOfLine, lexInsideTagMid, lexInsideTagRest]
